@@ -27,7 +27,9 @@ RULE += (
     "in-flight task. A separate unit applies ONE deduplicate() object to four functions with different "
     "signatures in all 24 decoration orders: equivalent spellings share a task, look-alike different calls do "
     "not. One unit uses deduplicated functions without named parameters (def f(*ids), def f(**opts)): the "
-    "arguments still are the key, dirty() of another key changes nothing."
+    "arguments still are the key, dirty() of another key changes nothing. Another unit repeats a call (two "
+    "spellings, function / method) after the thread's scheduler was replaced once or twice by "
+    "scheduler.reset(): same thread, same key, same task."
 )
 ASSUMPTIONS = [
     "calls issued while the in-flight task's own step is on the Python stack are unconstrained by the statement and leave the model unchanged",
